@@ -4,6 +4,12 @@ import json, os
 V = os.path.dirname(os.path.abspath(__file__))
 TECH = "deterministic simulation with fault injection: seeded scheduler + virtual clock (testing/synctest) over AST-instrumented repo code, oracle = "
 CLAIMED = {
+ "C01": dict(tech=TECH + "reference holder model (value -> subscriber) checked after every operation for sequential histories and by linearizability (porcupine) for 2-4 concurrent callers: uniqueness, in-range, re-ask stability, list/lookup sweeps",
+   text="Seeded exploration of allocate/specific/renew/release/lookup/epoch/tick/reload histories over every pool implementation (bitmap, epoch/lease, PoolAllocator + store, LocalAllocator, DistributedAllocator in session and lease mode with its epoch ticker and watch handler, dhcp.Pool, DHCPv6 address and prefix pools, pppoe.IPPool, single-node PeerPool, nexus.Client hash allocation) and pool geometry (IPv4 /24../30, IPv6 /64 /56 /128 units, gateway/reserved positions), with store write failures at a chosen call, every Query enumeration order, watch echoes of local writes and statement-level preemption of concurrent callers. Sampling, not proof.",
+   note="The 'exhaustively for pools of <=8 units and <=7 operations' part of the quantifier is sampled, not enumerated (enumeration is model checking, outside this technique). The key-value store behind the distributed and nexus variants is the harness's. Genuine defects not repaired are in known_findings.json.", ref="§5 C01"),
+ "C05": dict(tech=TECH + "conservation audit after every operation (live holders + obtainable units = usable units, Stats/utilisation = model counts, renewed-within-grace never reclaimed) and a final drain by fresh subscribers",
+   text="Seeded exploration of allocate/release/renew/epoch-burst (1-9 advances, beyond the 2-bit wrap)/tick/reload (x1-3)/re-applied-record/drain histories over every pool implementation and geometry, with store Put/Delete/Get failures at a chosen call index, watch echoes and the real epoch ticker and store cleanup on the virtual clock. Sampling, not proof.",
+   note="After an injected store error on Release/Renew/re-ask the subscriber is 'possibly live' and counts are checked against the resulting interval; a constructor that rejects the drawn grace period ends the run with no verdict (probe config_rejected_grace).", ref="§5 C05"),
  "C11": dict(tech=TECH + "RFC 1661 agreement monitor, reply-shape checks, bounded termination against a silent peer",
    text="Seeded exploration of event/packet/timer orderings of the real LCP/IPCP/IPv6CP automata with their real restart timers on a virtual clock; the restart-timer callback is a scheduler task, so timer-vs-packet races (stale callbacks) are explored and replayable. Sampling, not proof.",
    note="Trusts the Go runtime/synctest, the instrumenter (transparency-tested against the repo's own tests), and the harness's agreement monitor. Packets are delivered only while the lower layer is up.", ref="§5 C11"),
